@@ -1,6 +1,6 @@
 /-
   PINS of property C01: the decision tokens of every item the property is anchored in
-  (properties.jsonl `anchors` + tools/anchor_extra.json), as they were in /repo at b30ed81 when the
+  (properties.jsonl `anchors` + tools/anchor_extra.json), as they were in /repo at 32de816 when the
   model was validated against the source.  Written by tools/pin_anchors.py; the right-hand sides are
   compared by the kernel with lean/Chrono/Extracted/Anchors.lean, which tools/extractors/anchors.py
   regenerates from /repo's working tree on every check.  A theorem that fails here means: anchored
@@ -10,6 +10,22 @@ import Chrono.Extracted.Anchors
 namespace Chrono.Pins.C01
 open Chrono.Extracted.Anchors
 
+/-- src/naive/date/mod.rs:const MAX -/
+theorem src_naive_date_mod_rs_const_MAX : C01_src_naive_date_mod_rs_const_MAX =
+    ["NaiveDate", "NaiveDate", "from_yof(", "MAX_YEAR", "<<", "13", "|", "365", "<<", "4", "|", "14", "/", "*", "G", "*", "/"] := by decide +kernel
+
+/-- src/naive/date/mod.rs:const MAX_YEAR -/
+theorem src_naive_date_mod_rs_const_MAX_YEAR : C01_src_naive_date_mod_rs_const_MAX_YEAR =
+    ["i32", "i32", "MAX", ">>", "13", "-", "1"] := by decide +kernel
+
+/-- src/naive/date/mod.rs:const MIN -/
+theorem src_naive_date_mod_rs_const_MIN : C01_src_naive_date_mod_rs_const_MIN =
+    ["NaiveDate", "NaiveDate", "from_yof(", "MIN_YEAR", "<<", "13", "|", "1", "<<", "4", "|", "10", "/", "*", "D", "*", "/"] := by decide +kernel
+
+/-- src/naive/date/mod.rs:const MIN_YEAR -/
+theorem src_naive_date_mod_rs_const_MIN_YEAR : C01_src_naive_date_mod_rs_const_MIN_YEAR =
+    ["i32", "i32", "MIN", ">>", "13", "+", "1"] := by decide +kernel
+
 /-- src/naive/date/mod.rs:const YEAR_DELTAS -/
 theorem src_naive_date_mod_rs_const_YEAR_DELTAS : C01_src_naive_date_mod_rs_const_YEAR_DELTAS =
     ["&", "u8", "401", "&", "0", "1", "1", "1", "1", "2", "2", "2", "2", "3", "3", "3", "3", "4", "4", "4", "4", "5", "5", "5", "5", "6", "6", "6", "6", "7", "7", "7", "7", "8", "8", "8", "8", "9", "9", "9", "9", "10", "10", "10", "10", "11", "11", "11", "11", "12", "12", "12", "12", "13", "13", "13", "13", "14", "14", "14", "14", "15", "15", "15", "15", "16", "16", "16", "16", "17", "17", "17", "17", "18", "18", "18", "18", "19", "19", "19", "19", "20", "20", "20", "20", "21", "21", "21", "21", "22", "22", "22", "22", "23", "23", "23", "23", "24", "24", "24", "24", "25", "25", "25", "25", "25", "25", "25", "25", "26", "26", "26", "26", "27", "27", "27", "27", "28", "28", "28", "28", "29", "29", "29", "29", "30", "30", "30", "30", "31", "31", "31", "31", "32", "32", "32", "32", "33", "33", "33", "33", "34", "34", "34", "34", "35", "35", "35", "35", "36", "36", "36", "36", "37", "37", "37", "37", "38", "38", "38", "38", "39", "39", "39", "39", "40", "40", "40", "40", "41", "41", "41", "41", "42", "42", "42", "42", "43", "43", "43", "43", "44", "44", "44", "44", "45", "45", "45", "45", "46", "46", "46", "46", "47", "47", "47", "47", "48", "48", "48", "48", "49", "49", "49", "49", "49", "49", "49", "49", "50", "50", "50", "50", "51", "51", "51", "51", "52", "52", "52", "52", "53", "53", "53", "53", "54", "54", "54", "54", "55", "55", "55", "55", "56", "56", "56", "56", "57", "57", "57", "57", "58", "58", "58", "58", "59", "59", "59", "59", "60", "60", "60", "60", "61", "61", "61", "61", "62", "62", "62", "62", "63", "63", "63", "63", "64", "64", "64", "64", "65", "65", "65", "65", "66", "66", "66", "66", "67", "67", "67", "67", "68", "68", "68", "68", "69", "69", "69", "69", "70", "70", "70", "70", "71", "71", "71", "71", "72", "72", "72", "72", "73", "73", "73", "73", "73", "73", "73", "73", "74", "74", "74", "74", "75", "75", "75", "75", "76", "76", "76", "76", "77", "77", "77", "77", "78", "78", "78", "78", "79", "79", "79", "79", "80", "80", "80", "80", "81", "81", "81", "81", "82", "82", "82", "82", "83", "83", "83", "83", "84", "84", "84", "84", "85", "85", "85", "85", "86", "86", "86", "86", "87", "87", "87", "87", "88", "88", "88", "88", "89", "89", "89", "89", "90", "90", "90", "90", "91", "91", "91", "91", "92", "92", "92", "92", "93", "93", "93", "93", "94", "94", "94", "94", "95", "95", "95", "95", "96", "96", "96", "96", "97", "97", "97", "97"] := by decide +kernel
@@ -17,6 +33,10 @@ theorem src_naive_date_mod_rs_const_YEAR_DELTAS : C01_src_naive_date_mod_rs_cons
 /-- src/naive/date/mod.rs:fn cycle_to_yo -/
 theorem src_naive_date_mod_rs_fn_cycle_to_yo : C01_src_naive_date_mod_rs_fn_cycle_to_yo =
     ["v1", "u32", "->", "u32", "u32", "v2", "v1", "/", "365", "v3", "v1", "%", "365", "v4", "YEAR_DELTAS", "v2", "as", "usize", "as", "u32", "if", "v3", "<", "v4", "v2", "-=", "1", "v3", "+=", "365", "-", "YEAR_DELTAS", "v2", "as", "usize", "as", "u32", "else", "v3", "-=", "v4", "v2", "v3", "+", "1"] := by decide +kernel
+
+/-- src/naive/date/mod.rs:fn day0 -/
+theorem src_naive_date_mod_rs_fn_day0 : C01_src_naive_date_mod_rs_fn_day0 =
+    ["&", "self", "->", "u32", "self", "mdf(", "day(", "-", "1"] := by decide +kernel
 
 /-- src/naive/date/mod.rs:fn from_isoywd_opt -/
 theorem src_naive_date_mod_rs_fn_from_isoywd_opt : C01_src_naive_date_mod_rs_fn_from_isoywd_opt =
@@ -42,13 +62,29 @@ theorem src_naive_date_mod_rs_fn_from_ymd_opt : C01_src_naive_date_mod_rs_fn_fro
 theorem src_naive_date_mod_rs_fn_from_yo_opt : C01_src_naive_date_mod_rs_fn_from_yo_opt =
     ["v1", "i32", "v2", "u32", "->", "Option", "<", "NaiveDate", ">", "v3", "YearFlags", "from_year(", "v1", "NaiveDate", "from_ordinal_and_flags(", "v1", "v2", "v3"] := by decide +kernel
 
+/-- src/naive/date/mod.rs:fn iso_week -/
+theorem src_naive_date_mod_rs_fn_iso_week : C01_src_naive_date_mod_rs_fn_iso_week =
+    ["&", "self", "->", "IsoWeek", "IsoWeek", "from_yof(", "self", "year(", "self", "ordinal(", "self", "year_flags("] := by decide +kernel
+
+/-- src/naive/date/mod.rs:fn leap_year -/
+theorem src_naive_date_mod_rs_fn_leap_year : C01_src_naive_date_mod_rs_fn_leap_year =
+    ["&", "self", "->", "bool", "self", "yof(", "&", "8", "==", "0"] := by decide +kernel
+
 /-- src/naive/date/mod.rs:fn mdf -/
 theorem src_naive_date_mod_rs_fn_mdf : C01_src_naive_date_mod_rs_fn_mdf =
     ["&", "self", "->", "Mdf", "Mdf", "from_ol(", "self", "yof(", "&", "OL_MASK", ">>", "3", "self", "year_flags("] := by decide +kernel
 
+/-- src/naive/date/mod.rs:fn month0 -/
+theorem src_naive_date_mod_rs_fn_month0 : C01_src_naive_date_mod_rs_fn_month0 =
+    ["&", "self", "->", "u32", "self", "month(", "-", "1"] := by decide +kernel
+
 /-- src/naive/date/mod.rs:fn num_days_from_ce -/
 theorem src_naive_date_mod_rs_fn_num_days_from_ce : C01_src_naive_date_mod_rs_fn_num_days_from_ce =
     ["&", "self", "->", "i32", "v1", "self", "year(", "-", "1", "v2", "0", "if", "v1", "<", "0", "v3", "1", "+", "-", "v1", "/", "400", "v1", "+=", "v3", "*", "400", "v2", "-=", "v3", "*", "146097", "v4", "v1", "/", "100", "v2", "+=", "v1", "*", "1461", ">>", "2", "-", "v4", "+", "v4", ">>", "2", "v2", "+", "self", "ordinal(", "as", "i32"] := by decide +kernel
+
+/-- src/naive/date/mod.rs:fn ordinal0 -/
+theorem src_naive_date_mod_rs_fn_ordinal0 : C01_src_naive_date_mod_rs_fn_ordinal0 =
+    ["&", "self", "->", "u32", "self", "ordinal(", "-", "1"] := by decide +kernel
 
 /-- src/naive/date/mod.rs:fn pred_opt -/
 theorem src_naive_date_mod_rs_fn_pred_opt : C01_src_naive_date_mod_rs_fn_pred_opt =
@@ -98,6 +134,14 @@ theorem src_naive_internals_rs_fn_ordinal_and_flags : C01_src_naive_internals_rs
 theorem src_naive_isoweek_rs_fn_from_yof : C01_src_naive_isoweek_rs_fn_from_yof =
     ["v1", "i32", "v2", "u32", "v3", "YearFlags", "->", "Self", "v4", "v2", "+", "v3", "isoweek_delta(", "/", "7", "let(", "v1", "v5", "if", "v4", "<", "1", "v6", "YearFlags", "from_year(", "v1", "-", "1", "nisoweeks(", "v1", "-", "1", "v6", "else", "v7", "v3", "nisoweeks(", "if", "v4", ">", "v7", "v1", "+", "1", "1", "else", "v1", "v4", "v8", "YearFlags", "from_year(", "v1", "IsoWeek", "v9", "v1", "<<", "10", "|", "v5", "<<", "4", "as", "i32", "|", "i32", "from(", "v8"] := by decide +kernel
 
+/-- src/naive/isoweek.rs:type IsoWeek -/
+theorem src_naive_isoweek_rs_type_IsoWeek : C01_src_naive_isoweek_rs_type_IsoWeek =
+    ["v1", "i32", "§", "IsoWeek", "pub(", "from_yof(", "v1", "i32", "v2", "u32", "v3", "YearFlags", "->", "Self", "v4", "v2", "+", "v3", "isoweek_delta(", "/", "7", "let(", "v1", "v5", "if", "v4", "<", "1", "v6", "YearFlags", "from_year(", "v1", "-", "1", "nisoweeks(", "v1", "-", "1", "v6", "else", "v7", "v3", "nisoweeks(", "if", "v4", ">", "v7", "v1", "+", "1", "1", "else", "v1", "v4", "v8", "YearFlags", "from_year(", "v1", "IsoWeek", "v9", "v1", "<<", "10", "|", "v5", "<<", "4", "as", "i32", "|", "i32", "from(", "v8", "year(", "&", "self", "->", "i32", "self", "v9", ">>", "10", "week(", "&", "self", "->", "u32", "self", "v9", ">>", "4", "&", "63", "as", "u32", "week0(", "&", "self", "->", "u32", "self", "v9", ">>", "4", "&", "63", "as", "u32", "-", "1", "§", "v1", "Debug", "for", "IsoWeek", "fmt(", "&", "self", "v2", "&", "v1", "Formatter", "->", "v1", "Result", "v3", "self", "year(", "v4", "self", "week(", "if(", "0", "..=", "9999", "contains(", "&", "v3", "write!(", "v2", "\"{:04}-W{:02}\"", "v3", "v4", "else", "write!(", "v2", "\"…\"", "v3", "v4"] := by decide +kernel
+
+/-- src/traits.rs:fn year_ce -/
+theorem src_traits_rs_fn_year_ce : C01_src_traits_rs_fn_year_ce =
+    ["&", "self", "->", "bool", "u32", "v1", "self", "year(", "if", "v1", "<", "1", "false", "1", "-", "v1", "as", "u32", "else", "true", "v1", "as", "u32"] := by decide +kernel
+
 /-- callee src/naive/date/mod.rs:fn yof -/
 theorem callee_src_naive_date_mod_rs_fn_yof : C01_callee_src_naive_date_mod_rs_fn_yof =
     ["&", "self", "->", "i32", "self", "v1", "get("] := by decide +kernel
@@ -113,5 +157,9 @@ theorem callee_src_naive_internals_rs_fn_from_year_mod_400 : C01_callee_src_naiv
 /-- callee src/naive/internals.rs:fn ndays -/
 theorem callee_src_naive_internals_rs_fn_ndays : C01_callee_src_naive_internals_rs_fn_ndays =
     ["&", "self", "->", "u32", "YearFlags(", "v1", "*", "self", "366", "-", "v1", ">>", "3", "as", "u32"] := by decide +kernel
+
+/-- callee src/naive/isoweek.rs:fn week0 -/
+theorem callee_src_naive_isoweek_rs_fn_week0 : C01_callee_src_naive_isoweek_rs_fn_week0 =
+    ["&", "self", "->", "u32", "self", "v1", ">>", "4", "&", "63", "as", "u32", "-", "1"] := by decide +kernel
 
 end Chrono.Pins.C01
